@@ -694,3 +694,66 @@ def gen_grid(repo, out):
 
 
 GENS = {"grid": gen_grid}
+
+
+# ======================================================================================================
+def gen_ranges(repo, out):
+    """JointSpectrum::*_range: each must be `range.into_signal_idler_par_iterator().map(|(a, b)| RECV.F(x, y)).collect()`.
+    Emits the table (range function, receiver, point function, first argument, second argument) with the closure's
+    parameters named by position ("signal" = first component of the pair, "idler" = second)."""
+    path = os.path.join(repo, "src/jsa/joint_spectrum.rs")
+    items = [it for it in parse_file(path) if it.kind == "fn" and "JointSpectrum" in it.container and it.name.endswith("_range")]
+    if not items:
+        raise Untranslatable(path, 0, "no JointSpectrum::*_range function found")
+    rows = []
+    for it in items:
+        if it.error:
+            raise it.error
+        b = it.body
+        tail = b[2]
+        lets = b[1]
+
+        def bad(what):
+            raise Untranslatable(path, it.span[0], f"{it.name}: {what}")
+        try:
+            assert tail[0] == "mcall" and tail[2] == "collect" and tail[3] == []
+            m = tail[1]
+            assert m[0] == "mcall" and m[2] == "map" and len(m[3]) == 1 and m[3][0][0] == "closure"
+            src = m[1]
+            assert src == ("mcall", ("path", ["range"]), "into_signal_idler_par_iterator", [])
+            clo = m[3][0]
+            pats = clo[1]
+            assert len(pats) == 1 and pats[0][0] == "ptuple" and len(pats[0][1]) == 2 and all(p[0] == "pbind" for p in pats[0][1])
+            names = {pats[0][1][0][1]: "signal", pats[0][1][1][1]: "idler"}
+            body = clo[2]
+            while body[0] in ("paren",) or (body[0] == "block" and not body[1] and body[2] is not None):
+                body = body[1] if body[0] == "paren" else body[2]
+            assert body[0] == "mcall" and len(body[3]) == 2 and all(a[0] == "path" and len(a[1]) == 1 and a[1][0] in names for a in body[3])
+            recv = body[1]
+            assert recv[0] == "path" and len(recv[1]) == 1
+            recv_name = recv[1][0]
+        except (AssertionError, IndexError, TypeError):
+            bad("expected `range.into_signal_idler_par_iterator().map(|(a, b)| recv.f(x, y)).collect()`")
+        # the only statements allowed before it: the construction of the swapped-idler spectrum
+        if recv_name == "self":
+            if lets:
+                bad("unexpected statements before the iterator chain")
+        else:
+            ok = (len(lets) == 2 and lets[0][0] == "let" and lets[1][0] == "let" and lets[1][1] == ("pbind", recv_name, False)
+                  and lets[0][3] == ("mcall", ("mcall", ("field", ("path", ["self"]), "spdc"), "clone", []), "with_swapped_signal_idler", [])
+                  and lets[1][3][0] == "call" and lets[1][3][1] == ("path", ["Self", "new"]) and lets[1][3][2][0] == ("path", [lets[0][1][1]]))
+            if not ok:
+                bad("receiver is neither `self` nor `Self::new(self.spdc.clone().with_swapped_signal_idler(), …)`")
+            recv_name = "swapped"
+        rows.append((it.name, recv_name, body[2], names[body[3][0][1][0]], names[body[3][1][1][0]]))
+        out.span(f"ranges.{it.name}", it)
+    body = ";\n   ".join(f'("{a}", ("{b}", "{c}", ("{d}", "{e}")))' for a, b, c, d, e in rows)
+    text = ("(* GENERATED by tools/gen/grid.py (generator `ranges`) from src/jsa/joint_spectrum.rs — do not edit. *)\n"
+            "From Coq Require Import String List.\nImport ListNotations.\nLocal Open Scope string_scope.\n\n"
+            "(* (range function, (receiver, point function, (first argument, second argument))): every *_range is\n"
+            "   `range.into_signal_idler_par_iterator().map(|(signal, idler)| receiver.point(first, second)).collect()` *)\n"
+            f"Definition range_calls : list (string * (string * string * (string * string))) :=\n  [{body}].\n")
+    out.write("Ranges.v", text)
+
+
+GENS["ranges"] = gen_ranges
